@@ -8,7 +8,8 @@
 (*     2^53 that share a double, floats at the edge of integer precision, huge / tiny floats,  *)
 (*     negatives, containers of them): CmpModelExact and CmpModelX (through the doubles) both  *)
 (*     satisfy the axioms and pinned entries, the exact-int fast path CmpModelFast does not; lists, *)
-(*     tuples and tables over such numbers are enumerated for the S2C replay.                  *)
+(*     tuples and tables over such numbers are enumerated for the S2C replay, and with them    *)
+(*     lists of tuples / tables one longer over numbers and NaNs only (no TypeError fallback). *)
 EXTENDS OrderBig, Json, SequencesExt
 CONSTANTS MaxLen, Mode     \* Mode: "laws" | "lists" | "tuples" | "tables" | "big"
 
@@ -97,9 +98,16 @@ SortBigU == {None, VInt(1), VFlt(5, 2), VNaN(1), VStr("a"), B53, B53p1, XPlus("i
 TupBigU  == {VTup(<<a, b>>) : a \in {None, B53, B53p1, B53f, VNaN(1)}, b \in {XPlus("i", 1, 53, 2), XPlus("f", 1, 53, 2), VInt(1)}}
 KeyBigU  == {None, VInt(1), B53, B53p1, B53f}
 BigRowsUpTo(n) == UNION {[1..k -> [a : KeyBigU, b : KeyBigU]] : k \in 0..n}
+\* numbers and NaNs only, one row / tuple more: Python's own order never raises TypeError on these, so the choice sort()
+\* itself makes between the native order and the Cmp key decides, and a NaN can sit in any row but the first
+TupNumU  == {VTup(<<a, b>>) : a \in {VInt(1), VInt(2), VNaN(1)}, b \in {VInt(1), VNaN(2)}}
+KeyNumU  == {VInt(1), VInt(2), VNaN(1)}
+NumRowsUpTo(n) == UNION {[1..k -> [a : KeyNumU, b : KeyNumU]] : k \in 0..n}
 BigInit == {[kind |-> "law", i |-> i] : i \in 1..Len(UXSeq)}
            \cup {[kind |-> "list", xs |-> s] : s \in SeqsUpTo(SortBigU, MaxLen) \cup SeqsUpTo(TupBigU, MaxLen - 1)}
            \cup {[kind |-> "table", rows |-> WithIds(r), by |-> b] : r \in BigRowsUpTo(MaxLen - 1), b \in Bys}
+           \cup {[kind |-> "list", xs |-> s] : s \in SeqsUpTo(TupNumU, MaxLen)}
+           \cup {[kind |-> "table", rows |-> WithIds(r), by |-> b] : r \in NumRowsUpTo(MaxLen), b \in {<<"a">>, <<"b", "a">>}}
 BigSortLaws == (Mode = "big" /\ done /\ x.kind = "list") =>
                  LET s == StableSort(C, x.xs) IN Sorted(s) /\ IsPerm(x.xs, s) /\ StableSort(C, s) = s
 BigTableLaws == (Mode = "big" /\ done /\ x.kind = "table") =>
